@@ -137,7 +137,18 @@ impl<'a> Crasher<'a> {
         // What n2 loads must be what the model says survived.
         let t = self.t;
         let manifest = t.manifest_name.clone();
-        match crate::worker::catch(|| n2::verif::load_disk(&manifest)) {
+        // Opening the log repairs it (a torn tail is cut off), so this
+        // inspection works on the file and then puts the crashed bytes back:
+        // the recovery invocation below must meet the log as the crash left it.
+        let crashed_log = std::fs::read(".n2_db").ok();
+        let loaded = crate::worker::catch(|| n2::verif::load_disk(&manifest));
+        match &crashed_log {
+            Some(bytes) => std::fs::write(".n2_db", bytes).expect("restore crashed log"),
+            None => {
+                let _ = std::fs::remove_file(".n2_db");
+            }
+        }
+        match loaded {
             Err(p) => {
                 self.fail(&p.key(), format!("{}: loading after the crash panicked: {} at {}", what, p.message, p.location), i, k, second);
                 return None;
